@@ -209,15 +209,23 @@ func propC10() *lib.Prop {
 		Rule: "cases = sequences of SetTimer/AdvanceWatermark/GetEarliest/Put/checkpoint/restore on the real TimerRegistry over a real in-memory DKV " +
 			"(default 64 MB memtables so that nothing is flushed and the DKV read defects tracked under C07 cannot interfere); fired timers are compared per advance " +
 			"(canonical order: timestamp, ties by key; a raw order that is not non-decreasing is a mismatch); non-trivial = per-key-group cache of at most 3 entries (or 0 bytes) " +
-			"with at least 6 registrations and an advance that fired at least 2 timers, or a restore followed by a firing",
+			"with at least 6 registrations and an advance that fired at least 2 timers, or a restore followed by a firing; " +
+			"every 8th case (and two fixed ones) runs the real Operator (HandleEvent: keyed events whose handler response registers timers, watermark messages of 1-4 runners, SourceComplete of a runner, HandleDeploy again) and compares every ProcessEventBatchRequest (TimerExpired events in order), non-trivial there = a TimerExpired reached the handler",
 		NumCases: func(tier string) int {
 			if tier == "thorough" {
 				return 15000
 			}
 			return 1500
 		},
-		Fixed: func(tier string) []lib.Case { return []lib.Case{d11, d11b, d10, zero} },
+		Fixed: func(tier string) []lib.Case {
+			// operator mode (header "M C10 op ..."): the timers the real Operator hands to the handler, over histories with
+			// several runners, source completions and redeployments (shared with C11's operator mode)
+			return append([]lib.Case{d11, d11b, d10, zero}, c11CompletionCases("M C10 op")...)
+		},
 		Gen: func(r *lib.Rng, tier string, i int) lib.Case {
+			if i%8 == 7 {
+				return c11OperatorCase(r, "M C10 op")
+			}
 			kgc := lib.Pick(r, []int{1, 1, 2, 3, 4, 8})
 			start, stop := 0, kgc
 			if kgc > 1 && r.Chance(1, 4) {
@@ -294,6 +302,9 @@ func propC10() *lib.Prop {
 			return c
 		},
 		Impl: func(c lib.Case) []string {
+			if h := strings.Fields(c.Header); len(h) > 2 && h[2] == "op" {
+				return c11RunOperatorOps(append([]string{"M", "C11"}, h[3:]...), c.Ops)
+			}
 			e := newC10Env(strings.Fields(c.Header))
 			out := make([]string, 0, len(c.Ops))
 			for _, op := range c.Ops {
@@ -305,6 +316,14 @@ func propC10() *lib.Prop {
 		Nontrivial: func(c lib.Case, out []string) bool {
 			small, many, restore := false, false, false
 			for _, t := range c.Tags {
+				if t == "operator" {
+					for _, o := range out {
+						if strings.Contains(o, "@") { // a TimerExpired reached the handler
+							return true
+						}
+					}
+					return false
+				}
 				small = small || t == "smallcache"
 				many = many || t == "manysets" || t == "fixed"
 				restore = restore || t == "restore"
